@@ -114,6 +114,7 @@ struct C19 : Check {
 		p.argv.push_back("F");
 		int nsteps = (int) r.range(5, tier ? 60 : 40);
 		bool resizes = r.chance(1, 4);
+		bool had_fault = false;
 		for (int i = 0; i < nsteps; i++) {
 			Step s;
 			int k = r.weighted({30, 16, 22, 10, 4, 3, 8});
@@ -157,6 +158,10 @@ struct C19 : Check {
 				// step's keys are then read in whatever state that leaves; the user ends that state with ESC
 				s.keys += "\x1b\x1b";
 			}
+			// an insert that a resize interrupted is recorded without its ESC: repeating it with . leaves the
+			// editor in insert mode until the user types ESC (not a statement of C19; C09 excludes resizes)
+			if (s.op == "keys" && had_fault && !s.keys.empty() && s.keys.back() == '.') s.keys += "\x1b\x1b";
+			if (!s.faults.empty()) had_fault = true;
 			if (s.op == "keys" && s.keys.empty()) continue;
 			p.steps.push_back(s);
 		}
